@@ -464,8 +464,8 @@ def _c18(bindir, tier, seed):
     jobs = shards(bindir, "holder_driver", "C18", seed, NCPU, ["--level", "full", "--max-schedules", "400000"], 7200)
     for k in range(4):
         jobs.append(miri_job("C18-miri-holder-%d" % k, "C18", "holder_stress", [["4", "2", "2", "3"], ["3", "3", "2", "2"], ["3", "2", "3", "4"], ["6", "1", "3", "3"]][k], 64, seed + 17 * k, 7200))
-    jobs.append(tsan_job("C18-tsan-holder", "C18", "holder_stress", ["2000", "2", "3", "6"], 3600, runs=10))
-    jobs.append(native_stress_job("C18-native-stress", "C18", bindir, "holder_stress", ["200000", "3", "3", "6"], 3600, runs=16))
+    jobs.append(tsan_job("C18-tsan-holder", "C18", "holder_stress", ["2000", "2", "3", "6"], 7200, runs=10))
+    jobs.append(native_stress_job("C18-native-stress", "C18", bindir, "holder_stress", ["200000", "3", "3", "6"], 7200, runs=16))
     return jobs
 
 
